@@ -97,7 +97,26 @@ pub fn tc_config() -> tc::Config {
     tc::Config::default()
 }
 
+pub fn parse_order(s: &str) -> storage_layout_extractor::verif::OrderMode {
+    use storage_layout_extractor::verif::OrderMode as M;
+    match s {
+        "reversed" => M::Reversed,
+        "sorted" => M::Sorted,
+        "sortedrev" => M::SortedReversed,
+        x if x.starts_with("seed:") => M::Seeded(x[5..].parse().unwrap_or(0)),
+        _ => M::Natural,
+    }
+}
+
 pub fn analyze(line: &str, upto: &str) -> Result<Outcome, String> {
+    let order = line.split_whitespace().nth(10).unwrap_or("natural").to_string();
+    storage_layout_extractor::verif::set_order_mode(parse_order(&order));
+    let r = analyze_inner(line, upto);
+    storage_layout_extractor::verif::set_order_mode(storage_layout_extractor::verif::OrderMode::Natural);
+    r
+}
+
+fn analyze_inner(line: &str, upto: &str) -> Result<Outcome, String> {
     let inp = parse_input(&line.split_whitespace().take(9).collect::<Vec<_>>().join(" "))?;
     let wd = Rc::new(CountingWatchdog::new(inp.every, inp.stop_at, 20_000_000));
     let dynwd: DynWatchdog = wd.clone();
